@@ -101,6 +101,14 @@ Mutations(doc) ==
   \* ---- control: still valid after a harmless change
   \cup { Mut(Append(doc, ObjectD("Extra", <<>>, <<FieldD("x", I, <<>>)>>)), "valid_extra_type"), Mut(doc, "valid_unchanged") }
   \* deprecated members of every kind, with and without a reason (C17: deprecation flag, reason, includeDeprecated)
+  \* a second directive with an argument called `reason`, used before and after @deprecated on fields and enum values
+  \cup { Mut(doc \o << DirectiveD("audit", <<ArgD("reason", S)>>, <<"FIELD_DEFINITION", "ENUM_VALUE">>),
+                      ObjectD("Aud", <<>>, << WD(FieldD("f1", S, <<>>), <<DU("deprecated", <<AV("reason", StrV("use f2"))>>), DU("audit", <<AV("reason", StrV("pci"))>>)>>),
+                                              WD(FieldD("f2", S, <<>>), <<DU("audit", <<AV("reason", StrV("pci"))>>), DU("deprecated", <<AV("reason", StrV("use f3"))>>)>>),
+                                              WD(FieldD("f3", S, <<>>), <<DU("deprecated", <<>>), DU("audit", <<AV("reason", StrV("pci"))>>)>>),
+                                              WD(FieldD("f4", S, <<>>), <<DU("audit", <<AV("reason", StrV("pci"))>>)>>) >>),
+                      EnumD("AudE", << WD(EV("V1"), <<DU("deprecated", <<AV("reason", StrV("faded"))>>), DU("audit", <<AV("reason", StrV("pci"))>>)>>),
+                                       WD(EV("V2"), <<DU("audit", <<AV("reason", StrV("pci"))>>)>>), EV("V3") >>) >>, "valid_deprecated_and_audit") }
   \cup { Mut(doc \o << InterfaceD("Old", <<FieldD("keep", S, <<>>), WD(FieldD("gone", S, <<>>), <<DU("deprecated", <<>>)>>)>>),
                       ObjectD("Impl", <<"Old">>, <<FieldD("keep", S, <<>>), WD(FieldD("gone", S, <<>>), <<DU("deprecated", <<AV("reason", StrV("because"))>>)>>),
                                                   WD(FieldD("also", I, <<ArgD("x", I)>>), <<DU("deprecated", <<>>)>>)>>),
@@ -124,7 +132,7 @@ ResultK == LoadResult(EmptySchema, cs.doc, KnownDev)
 BasesValid == \A b \in DOMAIN Bases : LoadResult(EmptySchema, Bases[b], {}).ok
 \* every mutation but the controls is refused by the specification, the controls are accepted
 MutationsRefused == phase = "case" =>
-  IF cs.mut \in {"valid_extra_type", "valid_unchanged", "valid_directive_on_directive_arg", "valid_deprecated_members", "valid_two_interfaces"} THEN Result.ok ELSE ~Result.ok
+  IF cs.mut \in {"valid_extra_type", "valid_unchanged", "valid_directive_on_directive_arg", "valid_deprecated_members", "valid_deprecated_and_audit", "valid_two_interfaces"} THEN Result.ok ELSE ~Result.ok
 
 \* all names an error may mention to "name the offender": those of every violated rule
 Offs(r) == IF r.ok THEN {} ELSE IF r.why # "invalid" THEN {r.off} ELSE r.offs
